@@ -2,11 +2,11 @@ SPECIFICATION Spec
 CONSTANTS
   S = 3
   Abis <- AbisSweep
-  Cfgs <- CfgsAll
+  Cfgs <- Cfgs3
   Types <- TypesSweepAll
   Pub = FALSE
-  MaxK = 2
-  HiK = 7
+  MaxK = 1
+  HiK = 6
   Steps = FALSE
 INVARIANT IntExact
 INVARIANT ToPyExact
